@@ -783,6 +783,35 @@ def rule_src1(ctx: Ctx) -> RuleResult:
     return r
 
 
+def rule_dq1(ctx: Ctx) -> RuleResult:
+    """DQ-1: no bounded deque holds data.  `deque(maxlen=n)` (or `deque(it, n)`) drops the oldest element silently when the n+1-th is
+    appended: a statistic over 'all items so far', a queue of pending values or a carry-over kept in one is the statistic / queue /
+    carry-over of the last n only, from the n+1-th element on and without any error."""
+    r = RuleResult("DQ-1", "no collections.deque with a maxlen holds items or state (it drops the oldest element silently once full)")
+    prog = ctx.program
+    for rel, m in sorted(prog.by_relpath.items()):
+        if (ctx.scope is not None and rel not in ctx.scope) or not rel.startswith("rxsci/"):
+            continue
+        r.instances += 1
+        for n in ast.walk(m.tree):
+            if not isinstance(n, ast.Call):
+                continue
+            dn = dotted_name(n.func)
+            ref = prog.resolve_dotted(m, dn) if dn else None
+            if not (ref and ref[0] in ("ext", "unknown") and isinstance(ref[1], str) and ref[1] == "collections.deque"):
+                continue
+            bounded = len(n.args) >= 2 or any(k.arg == "maxlen" and not (isinstance(k.value, ast.Constant) and k.value.value is None) for k in n.keywords)
+            fn = m.enclosing_function(n)
+            qn = m.scopes[fn].qualname if fn in m.scopes else "<module>"
+            r.ob(not bounded, lambda n=n, qn=qn: Finding(
+                "DQ-1", "%s::%s{deque-maxlen}" % (rel, qn), m.where(n),
+                "'%s' is a bounded deque: once it is full every append drops the oldest element without an error, so from that element on what is "
+                "computed from it (all the items of a key, the pending values of a queue) is computed from the most recent ones only" % ast.unparse(n)[:60]))
+        r.ob(True)
+    r.require_instances(1)
+    return r
+
+
 def rule_eq3(ctx: Ctx) -> RuleResult:
     """EQ-3: a parameter is never compared with True / False by value.  `count in (None, False)`, `count == False`: 0 and 0.0 are equal
     to False (1 and 1.0 to True), so a legitimate zero -- take(0), a timeout of 0, a size of 0 -- is taken for 'switched off'."""
@@ -893,6 +922,16 @@ def rule_cache1(ctx: Ctx) -> RuleResult:
                     and (is_cache(s.value.func, m) or (isinstance(s.value.func, ast.Call) and is_cache(s.value.func, m))):
                 cached[s.targets[0].id] = s
         for name, d in sorted(cached.items()):
+            # a memoised FACTORY: what it builds per call (the Subject of a grouping head, the closures and their variables) is then built
+            # once per distinct argument list and shared by every operator value made with equal arguments
+            if isinstance(d, ast.FunctionDef) and any(isinstance(g, (ast.FunctionDef, ast.Lambda)) and g is not d for g in ast.walk(d)):
+                r.ob(False, lambda name=name, d=d: Finding(
+                    "CACHE-1", "%s::%s{memoised factory}" % (rel, name), m.where(d),
+                    "%s builds an operator (inner functions, per-operator objects such as the Subject that carries a grouping head's lifecycle events) "
+                    "and is memoised by functools: two operators made with equal arguments are one object, so two of them alive in one pipeline "
+                    "(nested or chained with the same parameters) share that state and receive each other's events" % name))
+                continue
+
             def from_config(c):
                 # every name in the arguments belongs to a scope outside the per-subscription functions (a factory parameter, a
                 # module constant): the key of the cache is configuration, of which there are a few values, not data
